@@ -197,6 +197,7 @@ def check_c14(v: Verdict, t1_summary, n_trees):
     c14_order_battery(v, hist)
     c14_overrides_battery(v, hist)
     c14_nested_battery(v, hist)
+    c14_literal_battery(v, hist)
     # the model's acceptance is evaluated for the tree's own order; the real union is built from a set (hash order),
     # and acceptance can depend on the order (finding F23 of C12): such mismatches are counted, not compared
     texts, metas = [], []
@@ -407,3 +408,69 @@ def c14_nested_battery(v: Verdict, hist):
                                 v.violation("base-typed round trip lost the exact subclass of a nested instance (attributes typed with the base class)",
                                             {**rp, "payload": repr(payload)[:500], "back": repr(back)[:400]})
     hist["nested_battery_pairs"] = n
+
+
+def c14_literal_battery(v: Verdict, hist):
+    """systematic: hierarchies discriminated by a Literal-valued attribute, where subclasses may KEEP the tag value of their parent
+    (the disambiguator then maps that value to a union of classes, told apart by their unique attributes) while siblings override
+    it; both strategies, forbid_extra_keys on/off, both modes: every (K, instance of K or of a descendant) pair -- instances of the
+    PARENT classes included -- round-trips to the exact class"""
+    from typing import Literal
+    src = {}
+
+    def mk(name, base, own, tag):
+        attrs_ = {k: attrs.field(type=int, kw_only=True) for k in own}
+        if tag is not None:
+            attrs_["kind"] = attrs.field(type=Literal[tag], default=tag, kw_only=True)
+        cl = attrs.make_class(name, attrs_, bases=(base,) if base else (object,))
+        src[name] = (base.__name__ if base else None, own, tag)
+        return cl
+    trees = []
+    Shape = mk("LShape", None, ["name"], "shape")
+    Line = mk("LLine", Shape, ["length"], None)                 # keeps "shape"
+    Circle = mk("LCircle", Shape, ["radius"], "circle")
+    Arc = mk("LArc", Circle, ["angle"], None)                   # keeps "circle"
+    Dot = mk("LDot", Shape, [], "dot")                          # no attribute of its own, own tag
+    trees.append(("shape / line keeps the tag / circle overrides / arc keeps circle's / dot", [Shape, Line, Circle, Arc, Dot],
+                  {Shape: dict(name=1), Line: dict(name=2, length=3), Circle: dict(name=4, radius=5), Arc: dict(name=6, radius=7, angle=8), Dot: dict(name=9)}))
+    Base = mk("MBase", None, ["a"], "x")
+    C1 = mk("MC1", Base, ["b"], "y")
+    C2 = mk("MC2", Base, ["c"], "z")
+    trees.append(("every class its own tag", [Base, C1, C2], {Base: dict(a=1), C1: dict(a=2, b=3), C2: dict(a=4, c=5)}))
+    n = 0
+    for tname, classes, kws in trees:
+        for strategy in ("auto", "tagged"):
+            for forbid in (False, True):
+                for dv in (True, False):
+                    conv = Converter(forbid_extra_keys=forbid, detailed_validation=dv)
+                    gc.collect()
+                    desc = {"lane": "SUB/C14 literal battery", "tree": tname, "classes": {c.__name__: src[c.__name__] for c in classes}, "strategy": strategy,
+                            "forbid_extra_keys": forbid, "detailed_validation": dv}
+                    try:
+                        include_subclasses(classes[0], conv, **({"union_strategy": configure_tagged_union} if strategy == "tagged" else {}))
+                    except Exception:      # noqa  (refusing is allowed: "whenever it is accepted")
+                        continue
+                    for K in classes:
+                        for X in classes:
+                            if not issubclass(X, K):
+                                continue
+                            n += 1
+                            inst = X(**kws[X])
+                            rp = {**desc, "structure_as": K.__name__, "instance": repr(inst)}
+                            v.count(repr(rp), True)
+                            try:
+                                payload = conv.unstructure(inst, unstructure_as=K)
+                                back = conv.structure(payload, K)
+                            except RecursionError as e:
+                                v.violation("base-typed round trip recursed without bound after include_subclasses (Literal-discriminated hierarchy)", {**rp, "error": repr(e)[:200]})
+                                continue
+                            except Exception as e:
+                                leaf = not any(c is not K and issubclass(c, K) for c in classes)
+                                if strategy == "tagged" and forbid and leaf and "ForbiddenExtraKeysError" in repr(e) + repr(getattr(e, "exceptions", "")):
+                                    v.finding("F16", "leaf class under the tagged-union strategy + forbid_extra_keys rejects the tag its unstructure hook adds", {**rp, "error": repr(e)})
+                                else:
+                                    v.violation("base-typed round trip raised after include_subclasses (Literal-discriminated hierarchy)", {**rp, "error": repr(e)[:400]})
+                                continue
+                            if type(back) is not X or back != inst:
+                                v.violation("base-typed round trip lost the exact subclass or its attributes (Literal-discriminated hierarchy)", {**rp, "payload": payload, "back": repr(back)})
+    hist["literal_battery_pairs"] = n
